@@ -182,6 +182,20 @@ def run(vc):
         p.prove("target-within-saturate_sn_mva", tp * tp + tq * tq <= sat.z * sat.z,
                 note="with damping_coef = 1 the written setpoint satisfies p^2 + q^2 <= saturate_sn_mva^2")
     vc.explore("_determine_target_powers", h4, max_paths=60)
+    _standins(vc)
+
+
+def _standins(vc):
+    if not hasattr(vc, "native_standins"):
+        vc.native_standins = []
+    vc.native_standins.append(dict(
+        name="the real DERController on grids of operating points and all built-in PQV areas",
+        bound="13 x 13 x 13 grid of p / q / vm for every built-in PQV area, saturation 1.0 / 0.75 p.u. / none, both priorities (_saturate); 7 "
+              "controller runs with integer and float constant-Q models (PQVArea4120V2, machine arithmetic of the in-place writes); the Q(V) "
+              "characteristics of the built-in areas at their own break points",
+        script="import sys\nfrom replaylib.der import main, main_more\n"
+               "for f in (main, main_more):\n    try:\n        f()\n    except SystemExit as e:\n        if e.code:\n            raise\n",
+        timeout=1200))
 
 
 def classify(ob, model):
